@@ -36,6 +36,7 @@ type BugProj struct {
 	Status string   `json:"status"`
 	Labels []string `json:"labels"`
 	Title  int      `json:"title"`
+	Was    int      `json:"was"` // what the last title change says it replaced (-1: the title was never changed)
 	Text   []int    `json:"text"`
 	Nops   int      `json:"nops"`
 }
@@ -70,10 +71,17 @@ func token(s, prefix string) int {
 	return n
 }
 
-const seqSel = `bug{title status labels{name} comments(first:100){nodes{message}} operations(first:1){totalCount}}`
+const seqSel = `bug{title status labels{name} comments(first:100){nodes{message}} operations(first:1){totalCount} timeline(first:100){nodes{__typename ... on SetTitleTimelineItem{title was}}}}`
 
 func projReturned(rb map[string]interface{}) BugProj {
-	p := BugProj{Labels: []string{}, Text: []int{}, Title: -9}
+	p := BugProj{Labels: []string{}, Text: []int{}, Title: -9, Was: -1}
+	if tl, ok := rb["timeline"].(map[string]interface{}); ok {
+		for _, n := range tl["nodes"].([]interface{}) {
+			if it := n.(map[string]interface{}); it["__typename"] == "SetTitleTimelineItem" {
+				p.Was = token(it["was"].(string), "title ")
+			}
+		}
+	}
 	if t, ok := rb["title"].(string); ok {
 		p.Title = token(t, "title ")
 	}
@@ -96,7 +104,7 @@ func projReturned(rb map[string]interface{}) BugProj {
 }
 
 func (w *world) projStored(id entity.Id) BugProj {
-	p := BugProj{Labels: []string{}, Text: []int{}}
+	p := BugProj{Labels: []string{}, Text: []int{}, Was: -1}
 	b, err := bug.Read(w.repo, id)
 	if err != nil {
 		p.Status = "unreadable: " + err.Error()
@@ -113,6 +121,11 @@ func (w *world) projStored(id entity.Id) BugProj {
 		p.Text = append(p.Text, token(c.Message, "message "))
 	}
 	p.Nops = len(s.Operations)
+	for _, op := range s.Operations {
+		if st, ok := op.(*bug.SetTitleOperation); ok {
+			p.Was = token(st.Was, "title ")
+		}
+	}
 	return p
 }
 
@@ -140,11 +153,11 @@ func SeqCmd(args []string) {
 		sb, _, err := w.rc.Bugs().NewRaw(u, 1600000100, "title 0", "message 0", nil, nil)
 		hx.Must(err)
 		id := sb.Id()
-		evs := []SeqEvent{{Ev: "Reset", Sess: n, Configured: configured, Add: []string{}, Rem: []string{}, Returned: BugProj{Labels: []string{}, Text: []int{}}, Stored: w.projStored(id)}}
+		evs := []SeqEvent{{Ev: "Reset", Sess: n, Configured: configured, Add: []string{}, Rem: []string{}, Returned: BugProj{Labels: []string{}, Text: []int{}, Was: -1}, Stored: w.projStored(id)}}
 		for k, r := range sc.Reqs {
 			k1 := k + 1
 			ev := SeqEvent{Ev: "Request", Sess: n, Configured: configured, Name: r.Name, Auth: r.Auth, I: r.I, Add: orEmpty(r.Add), Rem: orEmpty(r.Rem),
-				Returned: BugProj{Labels: []string{}, Text: []int{}}}
+				Returned: BugProj{Labels: []string{}, Text: []int{}, Was: -1}}
 			prefix := id.String()[:12]
 			field, typ := r.Name, ""
 			in := map[string]interface{}{"prefix": prefix}
